@@ -216,6 +216,15 @@ func c14payload(s *c14state, choose verifseam.Chooser) (signP, verifyP string, f
 	return signP, verifyP, sig.SignedFields, true, ""
 }
 
+func canonEnv(m map[string]string) string {
+	ks := make([]string, 0, len(m))
+	for k, v := range m {
+		ks = append(ks, k+"="+v)
+	}
+	sort.Strings(ks)
+	return strings.Join(ks, ";")
+}
+
 type c14replay struct {
 	Initial string   `json:"initial"`
 	Kind    string   `json:"key_kind"`
@@ -356,6 +365,55 @@ func c14run(w *report.W) {
 	}
 	w.P.Bounds["payload_classes"] = len(byCanon)
 	w.Obs(fmt.Sprintf("classes=%d payloads=%d", len(byCanon), len(byPayload)))
+	// history independence: one pipeline-env map object reused across Sign calls (as SignSteps does): the payload of
+	// B signed after A must equal the payload of B signed alone, and the caller's map must not change
+	for _, a := range sigInitials {
+		for _, b := range sigInitials {
+			sa, _ := c14initial(a, "EdDSA")
+			sb, _ := c14initial(b, "EdDSA")
+			shared := map[string]string{}
+			for k, v := range a.Penv {
+				shared[k] = v
+			}
+			for k, v := range b.Penv {
+				shared[k] = v
+			}
+			// every step-env variable of A is also a pipeline variable (so A shadows it)
+			if e := sa.Step.Get("env"); e != nil && e.K == docgen.KMap {
+				for _, k := range e.Keys {
+					shared[k] = "pipeline-" + k
+				}
+			}
+			before := fmt.Sprint(len(shared)) + "|" + canonEnv(shared)
+			sb.Penv = map[string]string{}
+			for k, v := range shared {
+				sb.Penv[k] = v
+			}
+			alone, _, _, _, e0 := c14payload(sb, nil)
+			csA, errA := stepFromTree(sa.Step)
+			csB, errB := stepFromTree(sb.Step)
+			if errA != nil || errB != nil || e0 != "" {
+				continue
+			}
+			k, _ := findKey("EdDSA#0")
+			l := &payloadLogger{}
+			_, err1 := signature.Sign(sigCtx, k.Sign, sigWithInv(csA, sa.Repo), signature.WithEnv(shared), signature.WithLogger(l), signature.WithDebugSigning(true))
+			_, err2 := signature.Sign(sigCtx, k.Sign, sigWithInv(csB, sb.Repo), signature.WithEnv(shared), signature.WithLogger(l), signature.WithDebugSigning(true))
+			w.P.Evaluations += 2
+			w.Count("history_pairs", 1)
+			if err1 != nil || err2 != nil || len(l.payloads) != 2 {
+				w.Violate(report.Violation{Kind: "history-sign-error", Case: "sign " + a.Name + " then " + b.Name + " with one env map", Detail: fmt.Sprint(err1, err2), Size: 5})
+				continue
+			}
+			if l.payloads[1] != alone {
+				w.Violate(report.Violation{Kind: "payload-depends-on-history", Case: "sign " + a.Name + " then " + b.Name + " with one pipeline-env map object",
+					Detail: "payload of the second step differs from signing it alone:\n  after " + a.Name + ": " + l.payloads[1] + "\n  alone:        " + alone, Size: 5})
+			}
+			if after := fmt.Sprint(len(shared)) + "|" + canonEnv(shared); after != before {
+				w.Violate(report.Violation{Kind: "caller-env-modified", Case: "sign " + a.Name + " then " + b.Name, Detail: before + " -> " + after, Size: 5})
+			}
+		}
+	}
 	// seam: every order of the three range loops in Sign/Verify
 	verifseam.OpenMaxLen = 4
 	defer func() { verifseam.OpenMaxLen = 0; verifseam.SetChooser(nil) }()
